@@ -4,6 +4,6 @@ patch="$1"; shift
 wt=$(mktemp -d /tmp/aovc_wt_XXXXXX); rmdir "$wt"
 git -C /repo worktree add -q --detach "$wt" HEAD || exit 3
 ( cd "$wt" && git apply "$patch" ) || { git -C /repo worktree remove --force "$wt"; echo "patch does not apply"; exit 3; }
-AOVC_REPO="$wt" "$@"; rc=$?
+AOVC_REPO="$wt" AOVC_NO_EVIDENCE=1 "$@"; rc=$?
 git -C /repo worktree remove --force "$wt"; git -C /repo worktree prune
 exit $rc
